@@ -80,6 +80,13 @@ theorem measure_matches_dimension :
     ∀ s ∈ Spec.deckSystems, ∀ e ∈ Spec.measureSpec, Spec.measureOk s e = true :=
   fun s hs => List.all_eq_true.mp (List.all_eq_true.mp measures_composite s hs)
 
+/-- the string overloads agree with the measure overloads: `UnitSystem::parse` of the string that
+denotes the documented composite (e.g. "Viscosity*ReservoirVolume/Time*Pressure") yields exactly
+the scale and offset of the measure-table entry, in each deck system, for all 46 measures -/
+theorem measure_matches_parse :
+    ∀ s ∈ Spec.deckSystems, ∀ e ∈ Spec.measureSpec, Spec.measureParseOk s e = true :=
+  fun s hs => List.all_eq_true.mp (List.all_eq_true.mp measures_parse s hs)
+
 /-- no measure is missing from the specification -/
 theorem measure_spec_covers_all : ∀ n ∈ measureNames, Spec.measureSpec.any (·.measure == n) = true :=
   List.all_eq_true.mp measures_covered
@@ -210,6 +217,10 @@ example : let s := sys.UNIT_TYPE_FIELD Rat
     parse s "Time*Pressure" = some ⟨some (Spec.day * Spec.psi), 0⟩ ∧
     parse s "Viscosity*ReservoirVolume/Time*Pressure" = some ⟨some (Spec.cP * Spec.stb / (Spec.day * Spec.psi)), 0⟩ ∧
     '/' ∉ "Viscosity*ReservoirVolume".toList ∧ "Time*Pressure".toList ≠ [] := by decide +kernel
+
+example : (Spec.measureSpec.map (fun e => String.ofList e.chars)).take 3 ++
+    ((Spec.measureSpec.filter (·.measure == "aicd_strength")).map (fun e => String.ofList e.chars)) =
+    ["1", "Length", "Time", "Pressure*Time*Time/Density*GeometricVolume*GeometricVolume"] := by decide +kernel
 
 -- … and composites with an offset operand are refused, as are unknown names and two divisions
 example : let s := sys.UNIT_TYPE_FIELD Rat
